@@ -461,6 +461,8 @@ def hostile_axes(model, rng):
             for i in rng.sample(inner, min(len(inner), rng.randint(1, 2))):
                 left, right = users[i - 1], users[i + 1]
                 m[i][1] = round(users[i] + (rng.choice([left, right]) - users[i]) * rng.uniform(0.2, 0.6), 1)
+            if any(m[k][1] <= m[k - 1][1] for k in range(1, len(m))):
+                m = [[u, u] for u in users]  # two bends crossed: a decreasing map is not a valid source
             a["map"] = m
             continue
         d = round(rng.uniform(-50, 200), rng.choice([0, 1]))
@@ -900,4 +902,46 @@ def boundary(model, rng, kind=None):
             b["accept"] = "either" if b.get("beyond") else "must"  # a shape-preserving fallback is as good as an error
     model["boundary"] = b
     model["expect"] = {"compiles": "either"}
+    return model
+
+
+# ------------------------------------------------------------------------------------------ designspace rules (C16 end to end)
+RULE_GLYPHS = ["A", "B", "C", "D", "E", "A.alt1", "A.alt2", "B.alt1", "C.alt1", "C.alt2", "D.alt1"]
+
+
+def add_rules(model, rng, n_rules=None, conflicts=0.2):
+    """Designspace <rules>: 1-5 rules, 1-2 condition sets each, conditions on 1-2 axes in design coordinates
+    (open-ended, nested, overlapping, identical boxes), substitutions to alternates; some rules share a substitution,
+    a few map one glyph to different targets (conflicts: evaluated under finding F8 only)."""
+    axes = model["axes"]
+    have = {g["name"] for g in model["glyphs"]}
+    bases = [n for n in ("A", "B", "C", "D") if n in have]
+    alts = {b: [n for n in have if n.startswith(b + ".alt")] for b in bases}
+    rules = []
+    for _ in range(n_rules or rng.randint(1, 5)):
+        sets = []
+        for _s in range(rng.randint(1, 2)):
+            conds = []
+            for a in rng.sample(axes, rng.randint(1, len(axes))):
+                lo, df, hi = design_bounds(a)
+                dl, dh = sorted((lo, hi))
+                pts = sorted(rng.choice([dl, df, dh, round(dl + (dh - dl) * rng.random(), rng.choice([0, 1]))]) for _ in range(2))
+                shape = rng.random()
+                c = {"axis": a["name"], "tag": a["tag"], "min": pts[0], "max": pts[1]}
+                if shape < 0.25:
+                    c["min"] = None
+                elif shape < 0.5:
+                    c["max"] = None
+                if c["min"] is not None and c["max"] is not None and c["min"] == c["max"] and rng.random() < 0.7:
+                    c["max"] = dh  # mostly avoid zero-width boxes
+                conds.append(c)
+            sets.append(conds)
+        subs = []
+        for b in rng.sample(bases, rng.randint(1, min(2, len(bases)))):
+            if alts[b]:
+                target = sorted(alts[b])[0] if rng.random() > conflicts else rng.choice(sorted(alts[b]))
+                subs.append([b, target])
+        if subs:
+            rules.append({"sets": sets, "subs": subs})
+    model["rules"] = {"processing": rng.choice(["first", "first", "last"]), "rules": rules} if rules else None
     return model
